@@ -103,6 +103,12 @@ func TestC13(t *testing.T) {
 		}
 		cfg := drawOptions(rt)
 		cfg.ResolveExtensions = []string{".json", ".yaml"}
+		if rapid.IntRange(0, 2).Draw(rt, "rootmapping") == 0 {
+			// mappings are keyed by the schema id, whichever way it is spelled
+			cfg.Mappings = []gen.Mapping{{ID: f.ID, Package: cfg.DefaultPackage, Output: "-", RootType: "MappedRoot"}}
+			c.Count("pair.with_root_type_mapping")
+		}
+		noExt := rapid.IntRange(0, 3).Draw(rt, "noext") == 0 // the argument is given without its extension
 		draw := func(label string) (model.Spelling, model.Format, []string) {
 			var sp model.Spelling
 			var names []string
@@ -138,9 +144,16 @@ func TestC13(t *testing.T) {
 			if format == model.YAML {
 				f.RelPath = "prog.yaml"
 			}
-			return caseOf(cfg, []string{f.RelPath}, f)
+			cs := caseOf(cfg, []string{f.RelPath}, f)
+			if noExt {
+				cs.Inputs = []string{"prog"}
+			}
+			return cs
 		}
 		ca, cb := render(spA, fmtA), render(spB, fmtB)
+		if noExt {
+			c.Count("pair.argument_without_extension")
+		}
 		if ca.Files[0].Text == cb.Files[0].Text && ca.Files[0].RelPath == cb.Files[0].RelPath {
 			c.Count("pair.identical_text")
 			return
